@@ -64,15 +64,21 @@ def fits_writer(filename, data, components=None):
 
         values = data[cid]
 
+        blank = None
+
         if mask is not None:
             # We need to copy the values so that we can mask them
             values = values.copy()
             if values.dtype.kind == 'f':
-                blank = None
                 values[~mask] = np.nan
             elif values.dtype.kind == 'i':
                 blank = np.iinfo(values.dtype).min
                 values[~mask] = blank
+            else:
+                # Other numerical types (e.g. unsigned integers, booleans)
+                # have no value that can be reserved for blank pixels
+                values = values.astype(float)
+                values[~mask] = np.nan
 
         # TODO: special behavior for PRIMARY?
         if isinstance(data, Data):
